@@ -605,6 +605,16 @@ fn run_case_cfg(cx: &mut Ctx, label: &str, gens: Vec<Vec<Op>>, picks: Vec<Box<dy
 /// complete checkpoint (`pre`).  Then one more generation of calls recovered WITH the snapshot.
 #[allow(clippy::too_many_arguments)]
 fn run_ckpt_case(cx: &mut Ctx, wck: &mut CaseWriter, label: &str, pre: Option<Vec<Op>>, ops1: Vec<Op>, ops2: Vec<Op>, cfg: WalConfig) {
+    run_ckpt_case_x(cx, wck, label, pre, None, ops1, ops2, cfg)
+}
+/// `stale` = calls followed by a checkpoint() that is INTERRUPTED by a crash at the step boundary
+/// "snapshot written to <snapshot>.tmp, not yet renamed" (hook point snapshot.before_rename): the
+/// disk keeps the log, the previous snapshot (if any) and the temp file; the store is recovered from
+/// that image and goes on with `ops1`, the checkpoint under test (to the same path), `ops2`.  For the
+/// model this is the same history without the crash (recovery of a fully synced log gives the live
+/// state), which the check confirms observation by observation.
+#[allow(clippy::too_many_arguments)]
+fn run_ckpt_case_x(cx: &mut Ctx, wck: &mut CaseWriter, label: &str, pre: Option<Vec<Op>>, stale: Option<Vec<Op>>, ops1: Vec<Op>, ops2: Vec<Op>, cfg: WalConfig) {
     use std::sync::{Arc, Mutex};
     cx.counter += 1;
     let dir: PathBuf = cx.args.out.join("scratch");
@@ -615,9 +625,15 @@ fn run_ckpt_case(cx: &mut Ctx, wck: &mut CaseWriter, label: &str, pre: Option<Ve
     let scratch_snap = dir.join(format!("crashk{}.snap", cx.counter));
     let _ = fs::remove_file(&wal);
     let _ = fs::remove_file(&snap);
-    let all_ops: Vec<Op> = pre.iter().flatten().chain(ops1.iter()).chain(ops2.iter()).cloned().collect();
+    let tmp_path = {
+        let mut t = snap.as_os_str().to_owned();
+        t.push(".tmp");
+        PathBuf::from(t)
+    };
+    let _ = fs::remove_file(&tmp_path);
+    let all_ops: Vec<Op> = pre.iter().flatten().chain(stale.iter().flatten()).chain(ops1.iter()).chain(ops2.iter()).cloned().collect();
     let tab = table(&mut cx.vals, &all_ops, all_ops.len() as u64 + 1);
-    let store = TensorStore::open_durable(&wal, cfg.clone()).expect("open_durable");
+    let mut store = TensorStore::open_durable(&wal, cfg.clone()).expect("open_durable");
     // an earlier, complete checkpoint
     let mut old_snap: Option<Vec<u8>> = None;
     let pre_model: Option<Vec<Op>> = pre.as_ref().map(|p| p.iter().filter(|o| matches!(o, Op::Put(..) | Op::Del(..))).cloned().collect());
@@ -630,7 +646,69 @@ fn run_ckpt_case(cx: &mut Ctx, wck: &mut CaseWriter, label: &str, pre: Option<Ve
         }
         old_snap = fs::read(&snap).ok();
     }
-    let o1 = run_ops(&store, &wal, &mut cx.vals, &ops1, &mut cx.dist, &snap, cfg.sync_mode);
+    // calls, then a checkpoint interrupted at snapshot.before_rename; recovery from that crash image
+    let mut o0: Option<OpsOut> = None;
+    let mut stale_len = 0usize;
+    if let Some(s0) = &stale {
+        let mut s0 = s0.clone();
+        s0.push(Op::Sync); // the whole log is on disk when the checkpoint starts
+        let o = run_ops(&store, &wal, &mut cx.vals, &s0, &mut cx.dist, &snap, cfg.sync_mode);
+        let cap: Arc<Mutex<Option<(Vec<u8>, Option<Vec<u8>>, Vec<u8>)>>> = Arc::new(Mutex::new(None));
+        {
+            let cap = cap.clone();
+            let (walp, snapp, tmpp) = (wal.clone(), snap.clone(), tmp_path.clone());
+            tensor_store::verif_hook::set(Some(Arc::new(move |name: &str| {
+                if name == "snapshot.before_rename" {
+                    let mut c = cap.lock().unwrap();
+                    if c.is_none() {
+                        *c = Some((fs::read(&walp).unwrap_or_default(), fs::read(&snapp).ok(), fs::read(&tmpp).unwrap_or_default()));
+                    }
+                }
+            })));
+        }
+        let _ = store.checkpoint(&snap);
+        tensor_store::verif_hook::set(None);
+        drop(store);
+        let Some((w0, s_old, t0)) = cap.lock().unwrap().clone() else {
+            cx.dist.hit("ckpt.interrupted.point_not_reached");
+            return;
+        };
+        // the disk as the crash left it
+        fs::write(&wal, &w0).unwrap();
+        match &s_old {
+            Some(bs) => fs::write(&snap, bs).unwrap(),
+            None => {
+                let _ = fs::remove_file(&snap);
+            }
+        }
+        fs::write(&tmp_path, &t0).unwrap();
+        stale_len = t0.len();
+        store = match guarded(std::panic::AssertUnwindSafe(|| TensorStore::recover(&wal, &cfg, Some(snap.as_path())))) {
+            Ok(Ok(st)) => st,
+            _ => {
+                cx.dist.hit("ckpt.interrupted.recovery_FAILED");
+                return;
+            }
+        };
+        cx.dist.hit("ckpt.interrupted_checkpoint_left_temp_file");
+        o0 = Some(o);
+    }
+    let mut o1 = run_ops(&store, &wal, &mut cx.vals, &ops1, &mut cx.dist, &snap, cfg.sync_mode);
+    if let Some(o) = o0 {
+        // one history for the model: the calls before the interrupted checkpoint, then ops1; the first
+        // observation of the recovered store takes the place of the last one of the crashed store
+        // (a difference is a difference between live and recovered state and shows up in the check)
+        let mut lives = o.lives;
+        lives.pop();
+        lives.extend(o1.lives);
+        o1 = OpsOut {
+            results: o.results.into_iter().chain(o1.results).collect(),
+            lives,
+            ends: o.ends.into_iter().chain(o1.ends).collect(),
+            acks: o.acks.into_iter().chain(o1.acks).collect(),
+            model_ops: o.model_ops.into_iter().chain(o1.model_ops).collect(),
+        };
+    }
     let live = o1.lives.last().unwrap().clone();
     let wdisk = fs::read(&wal).unwrap_or_default();
     // images: (point name, log bytes, snapshot bytes if the file exists)
@@ -658,6 +736,9 @@ fn run_ckpt_case(cx: &mut Ctx, wck: &mut CaseWriter, label: &str, pre: Option<Ve
         cx.dist.hit(&format!("ckpt.point.{name}"));
     }
     let new_snap = fs::read(&snap).unwrap_or_default();
+    if stale.is_some() {
+        cx.dist.hit(if new_snap.len() < stale_len { "ckpt.interrupted.new_snapshot_shorter_than_temp_file" } else { "ckpt.interrupted.new_snapshot_not_shorter" });
+    }
     let code = |sb: &Option<Vec<u8>>| -> u64 {
         match sb {
             None => 0,
@@ -768,14 +849,17 @@ fn run_ckpt_case(cx: &mut Ctx, wck: &mut CaseWriter, label: &str, pre: Option<Ve
         g2.term
     );
     let human = format!(
-        "{label}: sync={:?} before_previous_checkpoint={:?} ops={:?} results={:?} live_at_checkpoint={} log_on_disk={} marker_len={} points={:?} crash_states={} | after checkpoint: {}{}",
-        cfg.sync_mode, pre, ops1, o1.results, obs_human(&live), wdisk.len(), marker.len(),
+        "{label}: sync={:?} before_previous_checkpoint={:?}{} ops={:?} results={:?} live_at_checkpoint={} log_on_disk={} marker_len={} points={:?} crash_states={} | after checkpoint: {}{}",
+        cfg.sync_mode, pre,
+        stale.as_ref().map(|s0| format!(" before_a_checkpoint_interrupted_at_snapshot.before_rename(temp file of {stale_len} bytes left, store recovered)={s0:?}")).unwrap_or_default(),
+        ops1, o1.results, obs_human(&live), wdisk.len(), marker.len(),
         seen.iter().map(|x| x.0.as_str()).collect::<Vec<_>>(), nstates, g2.human,
         fail.as_ref().map(|f| format!(" ORACLE-FALSE: {f}")).unwrap_or_default()
     );
     wck.push(&term, &human, o1.model_ops.len() >= 2);
     let _ = fs::remove_file(&wal);
     let _ = fs::remove_file(&snap);
+    let _ = fs::remove_file(&tmp_path);
 }
 
 /// log rotation (small max_size_bytes) during the calls, then a COMPLETE checkpoint, then more
@@ -901,6 +985,19 @@ fn main() {
     );
     // torn multi-record put over an existing embedding key
     run_case(&mut cx, "corpus torn-op", vec![vec![Op::Put(0, v(1, Some(100))), Op::Put(0, v(2, Some(101)))], vec![Op::Put(5, v(3, None))]], vec![pick_fixed_back(20), pick_end()]);
+    // deletes of embedding-class keys whose 384-dim vector lives in the slab (three records each:
+    // EmbeddingDelete, EntityRemove, MetadataDelete), crashed at every byte; the next generation
+    // continues from a cut behind the first / second record of such a delete
+    run_case(
+        &mut cx,
+        "corpus torn-delete-of-indexed-embedding",
+        vec![
+            vec![Op::Put(0, v(1, Some(100))), Op::Put(5, v(2, Some(101))), Op::Del(0), Op::Put(10, v(3, Some(1))), Op::Del(5), Op::Del(10)],
+            vec![Op::Put(0, v(4, Some(102))), Op::Del(0), Op::Put(0, v(5, None))],
+            vec![Op::Del(0), Op::Put(5, v(6, Some(100)))],
+        ],
+        vec![Box::new(|_b, len, ends: &[u64]| (ends[1] + 20).min(len)), Box::new(|_b, len, ends: &[u64]| (ends[0] + 40).min(len)), pick_end()],
+    );
     // a vector left behind by an overwrite without embedding, then a delete torn after its first record
     run_case(&mut cx, "corpus stale-vector-torn-delete", vec![vec![Op::Put(0, v(1, Some(100))), Op::Put(0, v(2, None)), Op::Del(0)], vec![Op::Put(0, v(3, None))]], vec![pick_fixed_back(30), pick_end()]);
     // delete then re-create
@@ -939,7 +1036,7 @@ fn main() {
     // ---------------- seeded cases ----------------
     let ncases = args.budget(24, 500);
     for ci in 0..ncases {
-        let big = ci % 12 == 11; // a few cases exercise the 384-dim embedding slab
+        let big = ci % 6 == 5; // some cases exercise the 384-dim embedding slab
         let ngen = if big { rng.range(1, 2) } else { rng.range(1, 3) } as usize;
         let nkeys = rng.range(2, 6) as usize;
         let mut keys: Vec<u64> = (0..K).collect();
@@ -951,8 +1048,21 @@ fn main() {
         let mut gens: Vec<Vec<Op>> = vec![];
         let mut picks: Vec<Box<dyn FnMut(u64, u64, &[u64]) -> u64>> = vec![];
         for _ in 0..ngen {
-            let nops = if big { rng.range(1, 3) } else { rng.range(1, 7) } as usize;
-            gens.push(gen_ops(&mut rng, nops, big, &keys));
+            let nops = if big { rng.range(2, 4) } else { rng.range(1, 7) } as usize;
+            if big {
+                // life cycles of embedding-class keys with slab-dimension vectors: put, overwrite
+                // (with / without vector), delete -- the delete is three records
+                let ek: Vec<u64> = keys.iter().copied().filter(|k| k % 5 == 0).collect();
+                let ek = if ek.is_empty() { vec![*rng.pick(&[0u64, 5, 10])] } else { ek };
+                let mut ops = vec![];
+                for _ in 0..nops {
+                    let k = if rng.chance(3, 4) { *rng.pick(&ek) } else { *rng.pick(&keys) };
+                    ops.push(if rng.chance(3, 5) { Op::Put(k, gen_val(&mut rng, true)) } else { Op::Del(k) });
+                }
+                gens.push(ops);
+            } else {
+                gens.push(gen_ops(&mut rng, nops, big, &keys));
+            }
             picks.push(pick_random(rng.fork()));
         }
         cx.dist.hit(if big { "case.with_384dim_vectors" } else { "case.small_values" });
@@ -1079,6 +1189,30 @@ fn main() {
         vec![Op::Put(6, v(2, None)), Op::Sync],
         manual.clone(),
     );
+    // an interrupted checkpoint leaves <snapshot>.tmp behind; the recovered store shrinks (deletes of
+    // the large values) and completes a checkpoint to the same path: the new snapshot is shorter than
+    // the leftover temp file; crash at every point of that checkpoint and after it
+    run_ckpt_case_x(
+        &mut cx,
+        &mut wck,
+        "corpus checkpoint-after-interrupted-checkpoint",
+        None,
+        Some(vec![Op::Put(1, v(1, None)), Op::Put(6, v(13, None)), Op::Put(2, v(14, None)), Op::Put(0, v(2, Some(100))), Op::Put(7, v(12, None))]),
+        vec![Op::Del(6), Op::Del(2), Op::Del(0), Op::Put(7, v(1, None))],
+        vec![Op::Put(3, v(2, None)), Op::Del(1)],
+        WalConfig::default(),
+    );
+    // the same while an older snapshot is in place
+    run_ckpt_case_x(
+        &mut cx,
+        &mut wck,
+        "corpus second-checkpoint-after-interrupted-checkpoint",
+        Some(vec![Op::Put(1, v(1, None)), Op::Put(8, v(3, None))]),
+        Some(vec![Op::Put(6, v(14, None)), Op::Put(2, v(13, None)), Op::Put(1, v(12, None))]),
+        vec![Op::Del(6), Op::Del(2), Op::Del(1)],
+        vec![Op::Put(6, v(2, None))],
+        WalConfig::default(),
+    );
     // a checkpoint that fails while writing the snapshot, more writes, crash
     run_case(
         &mut cx,
@@ -1132,7 +1266,34 @@ fn main() {
             ops2.insert(i, Op::CkptFail(rng.below(2)));
         }
         cx.dist.hit(&format!("case.checkpoint.{}", match mode { 6 | 7 => "manual", 8 | 9 => "batched", _ => "immediate" }));
-        run_ckpt_case(&mut cx, &mut wck, &format!("seed{} ckpt#{}", args.seed, ci), pre, ops1, ops2, cfg);
+        // every third case: an interrupted checkpoint first (its temp file stays), then mostly deletes
+        let stale = if ci % 3 == 2 {
+            let durable: Vec<u64> = keys.iter().copied().filter(|k| k % 5 != 4).collect();
+            if durable.is_empty() {
+                None
+            } else {
+                let ns = rng.range(2, 5) as usize;
+                let s0: Vec<Op> = (0..ns).map(|_| Op::Put(*rng.pick(&durable), Val { base: rng.below(NBASE_ALL), emb: None })).collect();
+                for o in ops1.iter_mut() {
+                    if let Op::Put(k, _) = o {
+                        if rng.chance(2, 3) {
+                            *o = Op::Del(*k);
+                        }
+                    }
+                }
+                for k in &durable {
+                    if rng.chance(1, 2) {
+                        ops1.push(Op::Del(*k));
+                    }
+                }
+                Some(s0)
+            }
+        } else {
+            None
+        };
+        // (the crash in between forgets cache-class keys: none before it)
+        let pre = if stale.is_some() { pre.map(|p| p.into_iter().filter(|o| !matches!(o, Op::Put(k, _) | Op::Del(k) if k % 5 == 4)).collect::<Vec<Op>>()) } else { pre };
+        run_ckpt_case_x(&mut cx, &mut wck, &format!("seed{} ckpt#{}", args.seed, ci), pre, stale, ops1, ops2, cfg);
     }
 
     // ---------------- rotation, then a completed checkpoint, then writes ----------------
